@@ -109,6 +109,24 @@ Theorem C19_stop_cancellation : forall c s s' out, Inv s -> step c s (EStop None
   Forall cancel_outcome out.
 Proof. exact stop_cancels. Qed.
 Print Assumptions C19_stop_cancellation.
+(* ... and in general (the client's cancelled Deferred delivers a value v of its own - the real client: responses of the
+   brokers that had already answered, the other payloads failed): every outcome of stop() is a cancellation error, or
+   what v itself says about the send's payload (value_outcome: the acknowledgement (t,p,0,off) listed in v; the
+   failure kind v carries for it - a failed payload's kind, a response's error code, the kind of a whole-request
+   failure, NoResponseError for an empty result; None only with acks=0 for an empty / partially failed result). *)
+Theorem C19_stop_outcomes : forall c s cv s' out sid o, Inv s -> step c s (EStop cv) = (s', out) -> In (OOutcome sid o) out ->
+  o = OFail K_CANCEL 0 \/ o = OFail K_TIDCANCEL 0 \/
+  exists pls cur v, ph s = Sending pls cur /\ cv = Some v /\ result_ok c cur v = true /\ value_outcome c v o.
+Proof. exact stop_outcomes. Qed.
+Print Assumptions C19_stop_outcomes.
+
+(* The time limit stays armed until stop(): in every run, while the producer is not stopping the periodic call is
+   running iff a time limit was configured (so C19_no_starvation applies at every tick before stop). *)
+Theorem C19_looper_until_stop : forall c has_t api0 cache0 evs s tr,
+  run c (init_state has_t api0 cache0) evs = (s, tr) -> stopping s = false -> looper s = has_t.
+Proof. exact looper_until_stop. Qed.
+Print Assumptions C19_looper_until_stop.
+
 (* A stopping producer refuses a send at once: the caller gets a failure (CancelledError(request_sent=False), or
    the argument error if the arguments are bad), nothing is queued, no counter or Deferred list changes (only the
    model's numbering of sends moves on). *)
